@@ -2,9 +2,6 @@
 //! /repo, rebuilt from its working tree) on protocol cases and on in-process property checks.
 
 mod bigint;
-mod casts;
-mod custom;
-mod history;
 mod proto;
 mod q;
 mod run;
@@ -15,8 +12,6 @@ fn main() {
     // panics of the crate under test are outcomes, not noise
     std::panic::set_hook(Box::new(|_| {}));
     let args: Vec<String> = std::env::args().collect();
-    let seed = |i: usize| args.get(i).and_then(|s| s.parse::<u64>().ok()).unwrap_or(1);
-    let count = |i: usize, d: usize| args.get(i).and_then(|s| s.parse::<usize>().ok()).unwrap_or(d);
     match args.get(1).map(|s| s.as_str()) {
         Some("run") => {
             let stdin = std::io::stdin();
@@ -28,16 +23,12 @@ fn main() {
                     continue;
                 }
                 writeln!(out, "{}", run::run_line(&line)).expect("write");
+                // flushed per record: if the crate brings the process down, everything answered so far has been delivered
+                out.flush().expect("flush");
             }
         }
-        // C19: every instantiation of the rank-1 fast path: hook records, type names, fast vs general
-        Some("casts") => casts::main(),
-        // C17: histories replayed permuted and across threads on one shared interpolator
-        Some("history") => history::main(seed(2), count(3, 40)),
-        // C18: recording / failing user-defined strategies
-        Some("custom") => custom::main(seed(2), count(3, 300)),
         _ => {
-            eprintln!("usage: vharness run < cases > results | casts | history <seed> <n> | custom <seed> <n>");
+            eprintln!("usage: vharness run < cases > results   (scenario binaries: vharness_casts, vharness_hist <seed> <n>, vharness_custom <seed> <n>)");
             std::process::exit(2);
         }
     }
